@@ -284,6 +284,29 @@ def _ops_cases(ctx, n):
     return out
 
 
+def _check_round(ctx, cases):
+    """cases: (Fraction a, ndigits | None). round(TimeType(a), ndigits) against the Lean value roundNdigits /
+    roundHalfEven (the value is compared, not the Python type: an int for an integer-valued result is fine)."""
+    TimeType, numeric, gmpy2 = _imports()
+    lines, gots = [], []
+    for a, nd in cases:
+        tt = TimeType.from_fraction(a.numerator, a.denominator)
+        try:
+            got = canon_result(round(tt) if nd is None else round(tt, nd))
+        except Exception as exc:  # noqa
+            got = 'error:' + core.classify_exception(exc)
+        lines.append(sx(['c14', 'unop', 'round', a]) if nd is None else sx(['c14', 'round-nd', a, nd]))
+        gots.append(got)
+    for (a, nd), line, got, ans in zip(cases, lines, gots, core.Lean.run(lines)):
+        want = canon_model(ans)
+        ctx.case(line)
+        ctx.count('op:round-ndigits=%s' % nd)
+        if got != want:
+            ctx.disagreements += 1
+            ctx.violation('round(TimeType(%s), %s) gives %s, exact round-half-even result is %s' % (a, nd, got, want),
+                          {'kind': 'round', 'value': str(a), 'ndigits': nd, 'impl': got, 'spec': want})
+
+
 def _check_ops(ctx, n):
     kinds = operand_kinds()
     TimeType, numeric, gmpy2 = _imports()
@@ -328,6 +351,22 @@ def _check_ops(ctx, n):
         lines.append(sx(['c14', 'unop', op, a]))
         expect_impl.append(got)
         umeta.append((op, a))
+    # round(t, ndigits): a rational, round-half-even at the n-th decimal digit (n < 0: tens, hundreds, ...)
+    rcases = []
+    for _ in range(n // 4):
+        nd = urng.choice([None, -3, -2, -1, 0, 1, 2, 3, 4, 5, 6])
+        k = urng.random()
+        if k < 0.4 and nd is not None:
+            # ties and near-ties at that digit: (2m+1)/2 units, possibly a hair off
+            unit = F(10) ** -nd
+            a = (2 * urng.randrange(-2000, 2000) + 1) * unit / 2 + urng.choice([0, 0, 1, -1]) * unit / 10 ** 9
+        elif k < 0.8:
+            q = urng.randrange(1, 1 << urng.randrange(1, 40))
+            a = F(urng.randrange(-4000 * q, 4000 * q), q)
+        else:
+            a = F(urng.randrange(-10 ** 6, 10 ** 6), urng.choice([1, 2, 3, 7, 8, 1000, 3000]))
+        rcases.append((a, nd))
+    _check_round(ctx, rcases)
     answers = core.Lean.run(lines)
     allmeta = meta + umeta
     pf21 = False
@@ -694,7 +733,7 @@ def _known_pf21(ctx):
 def run(ctx: core.Ctx):
     ctx.rule = ('approximate_rational: exhaustive x=p/q, e=p\'/q\' with q,q\'<=B, x in [-2,3], plus random '
                 '(wide, float-born, near-simple-fraction boundary, malformed e<=0); TimeType operator table over '
-                '8 operand kinds x 11 binary + 8 unary operators; history family: one operator applied in one process to '
+                '8 operand kinds x 11 binary + 8 unary operators + round(t, ndigits) for ndigits in -3..6; history family: one operator applied in one process to '
                 'operands of different kinds carrying equal values (float / numpy float64,float32 / Fraction / mpq / '
                 'exact TimeType / sympy / int), float-like kinds first or exact kinds first; from_float in 3 modes (tolerance mode with tolerances relative to ulp(f), large non-integral floats and floats next to simple fractions). Non-trivial = the '
                 'approximation loop is entered (non-integer x) or an operator/convert case; distinct by canonical line')
@@ -733,6 +772,8 @@ def replay(ctx: core.Ctx, rec: dict, from_corpus: bool = False) -> bool:
         _judge_history(ctx, [(value, rec['op'], a, rec['side'], rec['order'], res)])
     elif kind == 'from_float_tol' and 'value' in rec and 'err' in rec:
         _check_from_float_tol(ctx, [(float(rec['value']), float(rec['err']))])
+    elif kind == 'round':
+        _check_round(ctx, [(F(rec['value']), rec['ndigits'])])
     elif kind in ('op', 'hash', 'pow', 'from_float', 'from_float_tol', 'from_float_back'):
         # these families are deterministic given the seed: re-run the family at the recorded seed
         sub = core.Ctx(ctx.pid, rec.get('tier', 'quick'), rec.get('seed', 0))
